@@ -27,7 +27,9 @@ RULE = (
     "two extra cases validate the harness block layout against closed-form expansion / shear "
     "solutions on Cartesian grids (failure = harness error, not a verdict); scale axis "
     "{1e-3, 1e3} on one grid per family, where the discretization is also repeated on the SAME "
-    "grid and data dictionary; grid, stiffness and bc arrays are digested before / after (purity)"
+    "grid and data dictionary; grid, stiffness and bc arrays are digested before / after (purity); "
+    "valid NON-CONVEX grids: 5 dart-quadrilateral grids (positive volumes adding up to the domain "
+    "measure, closed and non-self-intersecting cells, centroid outside an own face)"
 )
 ASSUMPTIONS = [
     "constant Lame parameters; every boundary face entirely Dirichlet (value = translation) "
@@ -59,6 +61,13 @@ BOUNDS = {
 MIN_CLASSES = 6
 CHUNK = 4
 TOL = 1e-9
+DARTS = [  # valid non-convex (dart) quadrilaterals: an interior node moved past a neighbour's diagonal
+    {"kind": "cart", "n": [3, 3], "set": [[5, [0.05, 0.07]]]},
+    {"kind": "cart", "n": [3, 3], "set": [[5, [0.05, 0.07]]], "map": "shear"},
+    {"kind": "cart", "n": [2, 2], "set": [[4, [0.9, 0.88]]]},
+    {"kind": "cart", "n": [3, 2], "set": [[5, [0.06, 0.1]]]},
+    {"kind": "cart", "n": [3, 3], "set": [[5, [0.05, 0.07]], [10, [0.95, 0.93]]]},
+]
 MULAM = [(1.0, 1.0), (1.0, 10.0), (3.0, 0.5), (3.0, 0.0)]
 
 
@@ -89,6 +98,10 @@ def _scale_cases():
 
 def cases(tier):
     out = [{"validate": 2}, {"validate": 3}] + _scale_cases()
+    # valid non-convex cells (centroid on the outer side of an own face: negative projected
+    # centre-to-face distance): side-wise + <=1 flips (thorough: <=2), all Lame pairs
+    for sp in DARTS:
+        out += _sides_flips(sp, 1 if tier == "quick" else 2)
     c22, t22 = {"kind": "cart", "n": [2, 2]}, {"kind": "tri", "n": [2, 2]}
     c32, t32 = {"kind": "cart", "n": [3, 2]}, {"kind": "tri", "n": [3, 2]}
     tet1 = {"kind": "tet", "n": [1, 1, 1]}
@@ -132,6 +145,8 @@ def _gridclass(spec):
     s = spec["kind"]
     if spec.get("pert"):
         s += "~np" if spec.get("nonplanar_ok") else "~"
+    if spec.get("set"):
+        s += "!dart"
     if spec.get("map", "id") != "id":
         s += "@"
     return s
@@ -159,7 +174,9 @@ def run_case(case) -> Outcome:
     hmin = G.h_min(g)
     amax = float(np.linalg.norm(g.face_normals, axis=0).max())
     gname = G.name(spec)
-    korth = spec["kind"] == "cart" and not spec.get("pert") and spec.get("map", "id") == "id"
+    korth = spec["kind"] == "cart" and not spec.get("pert") and not spec.get("set") and spec.get("map", "id") == "id"
+    if spec.get("set") and not G.nonconvex_cells(g):
+        raise RuntimeError("declared dart grid has no non-convex cell")
     gcls = f"{d}d/{_gridclass(spec)}"
     if spec.get("scale", 1) != 1:
         gcls += f"/x{spec['scale']:g}"
